@@ -5,8 +5,8 @@
     pivoting rule); [mx n n M] = the n x n MathComp matrix of the entries of M; [\det] = MathComp's
     determinant (Leibniz formula). *)
 From mathcomp Require Import all_ssreflect all_fingroup all_algebra.
-From LP Require Import Num C04_Model C05_Model C04_Proofs_Struct C04_Proofs_Laws C05_Proofs C05_Proofs_Complete C05_Proofs_Seq.
-Import GRing.Theory.
+From LP Require Import Num C04_Model C05_Model C04_Proofs_Struct C04_Proofs_Laws C05_Proofs C05_Proofs_Complete C05_Proofs_Seq C05_Proofs_Seq2 C05_Proofs_Orth C05_Proofs_Round.
+Import Order.TTheory GRing.Theory Num.Theory.
 Local Open Scope ring_scope.
 
 Section AnyField.
@@ -94,6 +94,37 @@ Theorem C05_seq_det_after_update n (h : list (@sop F)) (M0 A B : mat F) (outs : 
                           @OFlag F (\det (mx n.+1 n.+1 A - mx n.+1 n.+1 B) != 0)])%list)]).
 Proof. exact (@seq_det_after_update F absF sqrtF ltF leF n h M0 A B outs). Qed.
 Print Assumptions C05_seq_det_after_update.
+(** ... after a row exchange  std::swap(M[i], M[j]), i <> j, Determinant() has changed sign ("changes sign under a row swap",
+    as a statement about ONE object across calls) and Invertible() answers as before *)
+Theorem C05_seq_det_after_swap n (h : list (@sop F)) (M0 A : mat F) (outs : list (@sout F)) (i j : 'I_n.+1) :
+  srun Ops h M0 = Ok (A, outs) -> wf_mat A -> mrows A = n.+1 -> mcols A = n.+1 -> i != j ->
+  exists A', [/\ wf_mat A', mx n.+1 n.+1 A' = row_perm (tperm i j) (mx n.+1 n.+1 A) &
+     srun Ops (h ++ [:: @USwap F i j; @QDet F; @QInvertible F]) M0 =
+     Ok (A', (outs ++ [:: @ONone F; ODet (- \det (mx n.+1 n.+1 A)); @OFlag F (\det (mx n.+1 n.+1 A) != 0)])%list)].
+Proof. exact (@seq_det_after_swap F absF sqrtF ltF leF n h M0 A outs i j). Qed.
+Print Assumptions C05_seq_det_after_swap.
+(** ... and after an entry write  M[i][j] = v  Determinant() is  det A + (v - a_ij) * cofactor_ij(A)  (the determinant is
+    affine in every entry), Invertible() says whether that vanishes *)
+Theorem C05_seq_det_after_set n (h : list (@sop F)) (M0 A : mat F) (outs : list (@sout F)) (i j : 'I_n.+1) (v : F) :
+  srun Ops h M0 = Ok (A, outs) -> wf_mat A -> mrows A = n.+1 -> mcols A = n.+1 ->
+  let d' := \det (mx n.+1 n.+1 A) + (v - ment A i j) * cofactor (mx n.+1 n.+1 A) i j in
+  exists A', [/\ wf_mat A', (forall a b : 'I_n.+1, ment A' a b = if (a == i) && (b == j) then v else ment A a b) &
+     srun Ops (h ++ [:: @USet F i j v; @QDet F; @QInvertible F]) M0 =
+     Ok (A', (outs ++ [:: @ONone F; ODet d'; @OFlag F (d' != 0)])%list)].
+Proof. exact (@seq_det_after_set F absF sqrtF ltF leF n h M0 A outs i j v). Qed.
+Print Assumptions C05_seq_det_after_set.
+
+(** Matrix::Orthogonal() - the caller of the gate "Invertible() in front of Inverse()" inside the library
+    (if(!Invertible()) return false; else return Transpose() == Inverse();), any pivoting rule:
+    the answer [true] means M^T M = 1 = M M^T; a non-square matrix is answered [false] *)
+Theorem C05_orthogonal_sound n (M : mat F) : wf_mat M -> mrows M = n.+1 -> mcols M = n.+1 ->
+  orthogonal Ops M = Ok true ->
+  (mx n.+1 n.+1 M)^T *m mx n.+1 n.+1 M = 1%:M /\ mx n.+1 n.+1 M *m (mx n.+1 n.+1 M)^T = 1%:M.
+Proof. exact (@orthogonal_sound F absF sqrtF ltF leF n M). Qed.
+Print Assumptions C05_orthogonal_sound.
+Theorem C05_orthogonal_nonsquare (M : mat F) : mrows M <> mcols M -> orthogonal Ops M = Ok false.
+Proof. exact (@orthogonal_nonsquare F absF sqrtF ltF leF M). Qed.
+Print Assumptions C05_orthogonal_nonsquare.
 End AnyField.
 
 Section AnyArithmetic.
@@ -199,4 +230,77 @@ Theorem C05_exchange_matrix_inverts :
   exists X, [/\ inverse Ops M = Ok X, wf_mat X, mx 2 2 X *m mx 2 2 M = 1%:M & mx 2 2 M *m mx 2 2 X = 1%:M].
 Proof. exact (@exchange_matrix_inverts R sqrtF leF). Qed.
 Print Assumptions C05_exchange_matrix_inverts.
+(** Orthogonal() with the code's pivoting rule: it never exits on a square matrix (the gate lets exactly the matrices
+    through on which Inverse() returns) and decides  M^T M = 1 *)
+Theorem C05_orthogonal_iff n (M : mat R) : wf_mat M -> mrows M = n.+1 -> mcols M = n.+1 ->
+  orthogonal Ops M = Ok ((mx n.+1 n.+1 M)^T *m mx n.+1 n.+1 M == 1%:M).
+Proof. exact (@orthogonal_iff R sqrtF leF n M). Qed.
+Print Assumptions C05_orthogonal_iff.
+(** non-vacuity: the exchange matrix is orthogonal and is answered [true] *)
+Theorem C05_exchange_matrix_orthogonal :
+  orthogonal Ops (mk_mat 2 2 (fun i j => if i == j then 0 else 1 : R)) = Ok true.
+Proof. exact (@exchange_matrix_orthogonal R sqrtF leF). Qed.
+Print Assumptions C05_exchange_matrix_orthogonal.
 End RealField.
+
+Section RoundedArithmetic.
+(** "Determinant ... agrees with a pivoted-LU reference to rounding": forward error of Determinant() in ANY arithmetic
+    that obeys the standard model  fl(x op y) = (x op y)(1 + d), |d| <= u  for + - *  (IEEE double with round to nearest:
+    u = 2^-53, as long as no operation over- or underflows - this premise is the hypothesis [std_model], not a theorem).
+    [R] = any real field (the exact values); [XOps fadd fsub fmul ...] = the model's number type with ARBITRARY rounded
+    operations; [pm A] = sum over all permutations s of prod_i |A i (s i)| = the permanent of |A|;
+    [det_err_exp] 1 = 0, 2 = 2, N = det_err_exp (N-1) + N + 2. *)
+Variable R : realFieldType.
+Variables (fadd fsub fmul fdiv : R -> R -> R) (sqrtF : R -> R) (leF : R -> R -> bool) (u : R).
+Local Notation Ops := (XOps fadd fsub fmul fdiv sqrtF leF).
+Local Notation mx := (@mxr R fadd fsub fmul fdiv sqrtF leF).
+(** every size, every matrix: Determinant() returns, and  |computed - det M| <= ((1+u)^(det_err_exp N) - 1) * perm|M| *)
+Theorem C05_det_rounding_error n (M : mat R) : 0 <= u -> std_model fadd fsub fmul u ->
+  wf_mat M -> mrows M = n.+1 -> mcols M = n.+1 ->
+  exists2 d, determinant Ops M = Ok d &
+             `|d - \det (mx n.+1 M)| <= ((1 + u) ^+ det_err_exp n.+1 - 1) * pm (mx n.+1 M).
+Proof. exact (fun H0 SM => @det_rounding_error R fadd fsub fmul fdiv sqrtF leF u H0 SM n M). Qed.
+Print Assumptions C05_det_rounding_error.
+(** the sizes of the property's quantifier (1..7), u <= 2^-7: the error is at most 64 u perm|M| - the a-priori slack
+    DET_SLACK of the S4 clause 'lu-reference' *)
+Theorem C05_det_rounding_error_le7 n (M : mat R) : 0 <= u -> std_model fadd fsub fmul u ->
+  wf_mat M -> mrows M = n.+1 -> mcols M = n.+1 -> (n < 7)%N -> 128%:R * u <= 1 ->
+  exists2 d, determinant Ops M = Ok d & `|d - \det (mx n.+1 M)| <= 64%:R * u * pm (mx n.+1 M).
+Proof. exact (fun H0 SM => @det_rounding_error_le7 R fadd fsub fmul fdiv sqrtF leF u H0 SM n M). Qed.
+Print Assumptions C05_det_rounding_error_le7.
+(** "Invertible is true exactly when it is non-zero", in rounded arithmetic: Invertible() tests the COMPUTED determinant d, so
+    "reported singular" implies |det M| <= E perm|M| (singular to rounding), and an exactly singular matrix gives |d| <= E perm|M|
+    (a rounded residue that may be non-zero: known finding K-C05-1),  E = (1+u)^(det_err_exp N) - 1 *)
+Theorem C05_invertible_rounding n (M : mat R) : 0 <= u -> std_model fadd fsub fmul u ->
+  wf_mat M -> mrows M = n.+1 -> mcols M = n.+1 ->
+  let E := (1 + u) ^+ det_err_exp n.+1 - 1 in
+  exists d, [/\ determinant Ops M = Ok d, invertible Ops M = Ok (d != 0),
+                d = 0 -> `|\det (mx n.+1 M)| <= E * pm (mx n.+1 M) &
+                \det (mx n.+1 M) = 0 -> `|d| <= E * pm (mx n.+1 M)].
+Proof. exact (fun H0 SM => @invertible_rounding R fadd fsub fmul fdiv sqrtF leF u H0 SM n M). Qed.
+Print Assumptions C05_invertible_rounding.
+(** the accumulated factor in the usual form:  (1+u)^k - 1 <= k u / (1 - k u) = gamma_k,  and  det_err_exp N <= N^2 *)
+Theorem C05_gamma_bound (k : nat) : 0 <= u -> k%:R * u < 1 -> (1 + u) ^+ k - 1 <= k%:R * u / (1 - k%:R * u).
+Proof. exact (fun H0 => @gamma_bound' R u H0 k). Qed.
+Print Assumptions C05_gamma_bound.
+Theorem C05_det_err_exp_le (N : nat) : (det_err_exp N <= N * N)%N.
+Proof. exact (det_err_exp_le N). Qed.
+Print Assumptions C05_det_err_exp_le.
+(** the bound refers to the true size of the determinant's terms: |det A| <= perm|A|, and perm|A| obeys the Laplace expansion *)
+Theorem C05_det_le_perm n (A : 'M[R]_n) : `|\det A| <= pm A.
+Proof. exact (det_le_pm A). Qed.
+Print Assumptions C05_det_le_perm.
+Theorem C05_perm_expand_row n (A : 'M[R]_n) (i0 : 'I_n) : pm A = \sum_j `|A i0 j| * pm (row' i0 (col' j A)).
+Proof. exact (expand_pm_row A i0). Qed.
+Print Assumptions C05_perm_expand_row.
+(** non-vacuity: an arithmetic that really rounds (every + and * too large by the factor 1+u, every - too small by 1-u)
+    obeys the standard model; ((2,1,1),(1,2,1),(1,1,2)) satisfies the shape premises *)
+Theorem C05_std_model_example : 0 <= u ->
+  std_model (fun x y => (x + y) * (1 + u)) (fun x y => (x - y) * (1 - u)) (fun x y => x * y * (1 + u)) u.
+Proof. exact (@std_model_example R u). Qed.
+Print Assumptions C05_std_model_example.
+Theorem C05_rounding_premises_example : let M := mk_mat 3 3 (fun i j => if i == j then 2%:R else 1 : R) in
+  [/\ wf_mat M, mrows M = 3%N & mcols M = 3%N].
+Proof. exact (@premises_example R). Qed.
+Print Assumptions C05_rounding_premises_example.
+End RoundedArithmetic.
